@@ -299,7 +299,8 @@ class Input(object):
             # For a P2SH nested segwit input the hash in the locking script is the hash of the redeemscript (the witness
             # program), not the key hash or witness script hash this input needs
             if ls.public_hash and not (ls.script_types[0] == 'p2sh' and
-                                       self.script_type in ['p2sh_p2wpkh', 'p2sh_p2wsh']):
+                                       (self.script_type in ['p2sh_p2wpkh', 'p2sh_p2wsh'] or
+                                        self.witness_type == 'p2sh-segwit')):
                 self.public_hash = ls.public_hash
             if ls.script_types[0] in ['p2wpkh', 'p2wsh']:
                 self.witness_type = 'segwit'
